@@ -9,6 +9,7 @@ import CstructModel.Parser
 import CstructModel.Stubgen
 import CstructModel.Compiler
 import CstructModel.Compile
+import CstructModel.DefParser
 open Cstruct Cstruct.Proto
 
 def pairs? (s : Sexp) : Option (List (String × Int)) :=
@@ -119,8 +120,48 @@ def instrSexp : Compiler.Instr → Sexp
   | .block sz fmt slots => .list [.atom "block", .atom (toString sz),
       (match fmt with | some f => .str f | none => .atom "none"), .list (slots.map slotSexp)]
 
+-- ---------------------------------------------------------------------------------------- definition parser (C13)
+namespace DefParserSexp
+open Cstruct.DefParser
+def str (l : List Char) : Sexp := .str (String.ofList l)
+def optStr : Option (List Char) → Sexp
+  | some l => str l
+  | none => .atom "none"
+def declr (d : Declarator) : Sexp :=
+  .list [.atom "d", .atom (toString d.ptr), str d.name, .list (d.dims.map str),
+    match d.bits with | some b => .atom (toString b) | none => .atom "none"]
+mutual
+partial def tref : TypeRef → Sexp
+  | .none => .list [.atom "none"]
+  | .name n => .list [.atom "name", str n]
+  | .structRef t => .list [.atom "ref", str t]
+  | .inline a => .list [.atom "inline", aggr a]
+partial def aggr : Aggr → Sexp
+  | .mk u tag fs ns => .list [.atom (if u then "union" else "struct"), optStr tag, .list (fs.map field), .list (ns.map str)]
+partial def field : FieldDecl → Sexp
+  | .anon t => .list [.atom "anon", tref t]
+  | .named t d => .list [.atom "field", tref t, declr d]
+end
+def decl : Decl → Sexp
+  | .config vs => .list (.atom "config" :: vs.map str)
+  | .const n v => .list [.atom "const", str n, str v]
+  | .enum fl n b ms => .list [.atom (if fl then "flag" else "enum"), str n, str b,
+      .list (ms.map fun (k, v) => .list [str k, optStr v])]
+  | .typedef t ds => .list [.atom "typedef", tref t, .list (ds.map declr)]
+  | .aggr a => .list [.atom "aggr", aggr a]
+  | .lookup n v => .list [.atom "lookup", str n, str v]
+def result (r : List Decl × Option PErr) : Sexp :=
+  .list [.atom "res", .list (r.1.map decl),
+    match r.2 with | none => .atom "none" | some e => .list [.atom "err", .atom e.pyClass, .atom e.tag]]
+end DefParserSexp
+
 def handle (s : Sexp) : Sexp :=
   match s with
+  -- (parsedecls "text"): the declaration list of the definition parser, and the error that stopped it
+  | .list [.atom "parsedecls", .str t] => DefParserSexp.result (DefParser.parseDecls t.toList)
+  -- (scandef "text"): the tokens of re.Scanner on a text (no comment stripping)
+  | .list [.atom "scandef", .str t] =>
+    .list (.atom "ok" :: (DefParser.scan t.toList).map fun tk => .list [.atom tk.kind.pyName, .str (String.ofList tk.value)])
   -- (tokenize "text")
   | .list [.atom "tokenize", .str t] =>
     match Expr.tokenize t with
